@@ -404,11 +404,18 @@ thread_local! {
 }
 
 pub fn install_panic_hook() {
-    let default = std::panic::take_hook();
+    static LOUD: AtomicUsize = AtomicUsize::new(0);
     std::panic::set_hook(Box::new(move |info| {
-        // panics inside `trap` are observations; panics anywhere else are harness bugs: print them
+        // panics inside `trap` are observations; panics anywhere else are harness failures: print the first
+        // few (message and location only - a symbolised backtrace per panicking work item of a parallel
+        // loop takes minutes and looks like a hang)
         if IN_TRAP.with(|c| c.get()) == 0 {
-            default(info)
+            let n = LOUD.fetch_add(1, Ordering::Relaxed);
+            if n < 5 {
+                eprintln!("HARNESS PANIC (outside the panic trap): {info}");
+            } else if n == 5 {
+                eprintln!("HARNESS PANIC: further panics not shown");
+            }
         }
     }));
 }
